@@ -22,7 +22,12 @@ CONFIG = {
                     "google type, non-string map key, enum without *_UNSPECIFIED) built into real descriptors with protodesc, and (every "
                     "4th op) closures of the compiled-in test / schema / client / source protos; 1..8 requests in random order with "
                     "repeats on one SchemaCache; result = canonical dump of every answer + registered keys, compared with the Lean cache "
-                    "model; oracle: every answer equals the answer of a fresh cache, no unlinked ref in an answer, no placeholder left. "
+                    "model; every 8th op a graph of objects with flattened message fields (wrapper 'f': two messages flattening each "
+                    "other, rings, a flattened child shared by several parents); every 16th op a `clash` op on the schema-name "
+                    "collision family (Bar nested in Foo / top-level Foo_Bar, enum E nested in Foo / message Foo_E, holders, fresh "
+                    "types) against the claim model J5V/Conc/Clash.lean; oracle: every answer — and the client property lists "
+                    "(flattened fields expanded, JSON names, proto paths) of everything it reaches — equals that of a fresh cache, no "
+                    "unlinked ref in an answer, no placeholder left; every op under a 120 s watchdog (hang = crash-or-deadlock). "
                     "Non-trivial = at least one request on a warm cache over a graph with a cycle, a shared sub-schema or a failing node; "
                     "distinct by op text.",
         },
@@ -39,7 +44,8 @@ CONFIG = {
                     "sub-schemas (test.schema.v1.*), recursive (j5.schema.v1.*, NestedExposed), disjoint, generated descriptor graphs "
                     "(dynamicpb), mixed, failing (a generated graph with a member whose build is a schema error and that shares "
                     "sub-schemas with good types: the roll-back runs under contention), mutual (generated rings with back edges: self "
-                    "and mutual recursion); in half of the rounds every goroutine's first call is on the same type (stampede on its "
+                    "and mutual recursion), flatten (mutually flattening / shared flattened child graphs), clash (the schema-name "
+                    "collision family plus types first used after the clash error); in half of the rounds every goroutine's first call is on the same type (stampede on its "
                     "first use, through a different entry point per goroutine); every result is compared with the result of the same call alone on a fresh codec (JSON "
                     "compared up to object key order). Failures: a race detector report (signature race:<function of the write>), "
                     "fatal 'concurrent map', crash, deadlock (no call completed for 120 s), differing result, unlinked ref observed. Non-trivial = a "
@@ -77,7 +83,9 @@ CONFIG = {
         "their leaf mutexes (type_array.go) guard per-call protobuf lists",
         "an obtainer that returns an error returned no schema (NewRoot's early return for an invalid message): the code after it "
         "holds no reference to read through",
-        "splitDescriptorName is injective on the descriptor set (the model flattens packages[pkg].Schemas[name] to one key)",
+        "the cache model J5V/Conc/Cache.lean identifies a schema with its descriptor, i.e. covers descriptor sets on which "
+        "splitDescriptorName is injective; where it is not (recorded finding cache-history:schema-name-clash) the claim rule is "
+        "modelled on a fixed descriptor family only (J5V/Conc/Clash.lean, `clash` ops)",
         "exposed oneofs are presented to the model as ordinary oneof nodes: registration order inside one locked build and the "
         "'placeholder already exists for oneof wrapper' branch (unreachable with unique names) are not observable outside the lock",
         "the content of a schema is a function of its descriptor only (checked on every request by the fresh-cache oracle)",
